@@ -37,7 +37,9 @@ def jobs(tier, seed, mode):
             # odd variants: one question inside a repeat shares its name with a question outside every repeat
             wb, src = logicgen.build(rows, seed=seed * 10 + variant, mode=mode, homonyms=variant % 2 == 1)
             fmt = "md" if i % 13 == 0 else "dict"
-            res.append({"wb": wb, "src": src, "fmt": fmt, "shapes": [rows, variant], "seed": seed, "feat": [mode], "tag": {"rows": rows, "variant": variant}})
+            res.append({"wb": wb, "src": src, "fmt": fmt, "shapes": [rows, variant], "seed": seed, "feat": [mode], "tag": {"rows": rows, "variant": variant},
+                        # every third C10 form is also built in two parts through the builder's include mechanism
+                        "sectioned": (i + variant if mode == "defaults" and i % 3 == 0 else None)})
     return res, meta
 
 
